@@ -525,6 +525,17 @@ func VerifyObjectCopyAccess(ctx context.Context, be backend.Backend, copySource 
 		return s3err.GetAPIError(s3err.ErrInvalidCopySource)
 	}
 
+	// The source may name a version: "bucket/key?versionId=id". The resource
+	// of the decision is the key alone and reading a named version needs
+	// s3:GetObjectVersion.
+	srcAction := GetObjectAction
+	if i := strings.LastIndex(srcObject, "?versionId="); i != -1 {
+		if srcObject[i+len("?versionId="):] != "" {
+			srcAction = GetObjectVersionAction
+		}
+		srcObject = srcObject[:i]
+	}
+
 	// Get source bucket ACL
 	srcBucketACLBytes, err := be.GetBucketAcl(ctx, &s3.GetBucketAclInput{Bucket: &srcBucket})
 	if err != nil {
@@ -543,7 +554,7 @@ func VerifyObjectCopyAccess(ctx context.Context, be backend.Backend, copySource 
 		Acc:           opts.Acc,
 		Bucket:        srcBucket,
 		Object:        srcObject,
-		Action:        GetObjectAction,
+		Action:        srcAction,
 	}); err != nil {
 		return err
 	}
